@@ -24,21 +24,33 @@ PLAN = dict(
          "<stage>:ddeg<d> = fitted exponents in tenths (of the values / of the differences).  Per program (families k <= 8, resp. 16 in the second step; "
          "all random programs): modelrun recomputes G from the stage outputs (must equal the harness's numbers), reads them with the Coq readers, "
          "computes the Coq sizes (size_fcprog, size_cprog, c_wprog, fs_wprog, ax_size_prog; size <= G <= 64*(size + declarations)), and evaluates on the REAL "
-         "outputs the proved bounds of focus, shrink and linearize (class=proved-bound:<pass>), the proved shape of the code-generation bound with "
-         "calibrated K = 16 (class=codegen-bound:<arch>) and the stated bounds with calibrated constants (class=size-ratio:<pass>: "
-         "core <= 12*source*(1+vars), shrunk <= 8*(1+xtors)*focused*(1+width)).  Non-trivial: every readable case; "
+         "outputs ALL proved bounds: fun2core (nodes and weighted), focus, shrink, linearize, the composed pipeline bound, and the instruction bounds of the three "
+         "back ends on the counts without COMMENT pseudo-instructions, guarded by sub_wf of the real linearized program (class=proved-bound:<pass|arch>, "
+         "class=codegen-precondition:sub_wf); a violated proved bound means model and code differ.  Also the calibrated K = 16 shape (class=codegen-bound:<arch>) "
+         "and the stated sharp bounds with calibrated constants (class=size-ratio:<pass>: core <= 12*source*(1+vars), shrunk <= 8*(1+xtors)*focused*(1+width)).  Non-trivial: every readable case; "
          "distinct = distinct (family, sequence) resp. programs",
-    explanation="theorems (Props/C19.v, all closed under the global context): fun2core lifts the non-leaf continuation of `if` and of multi-clause "
-                "`case` once and hands every branch the same call of size 2 + |free variables| (re-export of the C02 lemmas); focus: a focused statement "
-                "is at most 4x as heavy as its source (program level up to the renaming pass uniquify: _partial); shrink: statement + everything lifted "
-                "<= w*((2+X*(2+A)) + 2*(1+X)*w) for every program (w weighted size, X/A largest number of xtors / arity), and the sharing step of a "
-                "critical pair in isolation; linearize: size <= 2*size + 3*statements*(1+width) for every program; generic code generator: "
-                "instructions <= K*size*(5+2*max context length) under an abstract cost model of the back-end operations.  fun2core_size (whole pass) "
-                "and the sharp linear forms are STATED, not proved; they are evaluated with calibrated constants on every case",
+    explanation="theorems (Props/C19.v, all closed under the global context; every pass has a bound FOR ALL PROGRAMS it accepts, and the bounds "
+                "compose): fun2core as a whole pass, all 15 term forms, lifted share_* definitions included: size_cprog <= size * (10 + 2*occ), "
+                "c_wprog <= weighted size * (12 + 3*occ), occ = distinct typed variable occurrences of a definition <= size (hence quadratic in the size "
+                "alone), <= parameters + typed binders for scoped programs; the round-1 form with `parameters + binders` over all fcprog values is REFUTED "
+                "(ill-scoped witness); the free-variable inclusion fv([[t]]_c) <= occurrences(t) u fv(c) without fragment; the two sharing lemmas (`if` / "
+                "multi-clause `case` lift a non-leaf continuation once); uniquify preserves every size measure exactly, so focus_size_statement 4 is proved: "
+                "Prog::focus at most quadruples the weighted size; shrink: statement + everything lifted <= w*((2+X*(2+A)) + 2*(1+X)*w) and the sharing step "
+                "of a critical pair; linearize: size <= 2*size + 3*statements*(1+width); generic code generator: instructions <= K*cg_bound <= "
+                "K*size*(5+2*max context) under the provable cost model cost_model_wf (parallel-move clause only for Substitutes with distinct ids: sub_wf, "
+                "implied by lin_check), which is DISCHARGED for x86-64 (K = 40+13F), AArch64 (40+15F) and RISC-V (20+13F), F = FIELDS_PER_BLOCK, giving "
+                "x86_compile / a64_compile / rv_compile instruction bounds without cost hypothesis; the parallel-move algorithm emits <= 2*edges + keys "
+                "pseudo-instructions on graphs with in-degree <= 1 (and exponentially many on diamond chains: the round-1 cost_model over all move tables was "
+                "too strong); the contexts of a linearized statement are <= 2*(context + size before linearization); composition with w = 12*W*(4+V), d = 4+X(4+A): "
+                "shrunk <= d*w^2, linearized <= 8*(d*w^2)^2 and x86-64 instructions <= 30 + x86_K*L*(5+4S) <= 30 + 72*x86_K*(d*w^2)^3 from the source alone "
+                "(degree 6 in W(4+V); crude: width <= size is the only width estimate without a scoping invariant); "
+                "vm_compute example of the whole pipeline.  Still only stated: the sharp linear form of shrinking",
     assumptions=[
         "the size measures: node counts including the length of every variable list (Lang/AxSize.v, Lang/FsSize.v), plain node counts for Fun and Core (arguments are terms there)",
         "the generic measure G is within [1, 64] x (the Coq measure + the weight of the type declarations) on every case (checked on every case, not proved; for random programs the upper bound is not required of the checked Fun program, whose type annotations are unbounded)",
-        "cost model of the back-end operations (single operation <= K instructions, store/load <= K*(1+fields), parallel moves of a Substitute <= K*(1+old+new context length)) is a hypothesis of the code-generation theorem; K = 16 is calibrated on the observed outputs, not proved for the three back ends",
+        "code generation: the instruction bounds need sub_wf (distinct ids in the old and new context of every Substitute); it follows from lin_check_prog, which C05 proves of linearize p for prog_ok p; prog_ok of the shrunk program is not proved here; modelrun evaluates sub_wf on every real linearized program",
+        "the proved cost constants (79 / 85 / 59) are far above the observed instructions per cg_bound unit (<= 3); K = 16 remains as a calibrated, unproved check",
+        "the composed pipeline bound is crude (shrinking quadratic, width <= size in linearization): degree 6 in weighted size x (4 + occurrences) for the instruction count",
         "growth thresholds: factor 6 per doubling of k separates degree <= 2 (factor <= 4 + lower-order terms) from degree >= 3 (factor 8) and from 2^k (factor 256)",
         "RISC-V: print is not implemented and at most 14 live variables fit; those outputs are `panic` and skipped",
     ],
